@@ -20,7 +20,7 @@ func init() {
 	Register(&Spec{
 		ID:        "C13",
 		Technique: "runtime monitoring: differential monitor of the JSON front end against an independent RFC 8259 recogniser (cross-checked with encoding/json), an exact-decimal literal-value model, and the native template parser for expression mode",
-		Rule: "cases are (a) grammar-generated RFC 8259 texts (every escape form, surrogate pairs, all whitespace bytes, numbers up to 150 digits / exponents to 6e3 (1e99999 in the fixed list), nesting, duplicate names), (b) near-miss mutants (trailing commas, bare words, +1 .5 1. 01, unterminated strings, raw control characters, comments, BOM, form feed, trailing garbage, NaN/Infinity, mismatched brackets, byte-level edits) and (c) JSON documents whose strings and property names are rendered HCL templates over a generated scope; acceptance by json.ParseExpression / json.Parse, literal-mode values and expression-mode values are compared with the models; " +
+		Rule: "cases are (a) grammar-generated RFC 8259 texts (every escape form, surrogate pairs, all whitespace bytes, numbers up to 150 digits / exponents to 6e3 (1e99999 in the fixed list), nesting, duplicate names), and wide documents of 10001-16000 sibling arrays/objects, (b) near-miss mutants (trailing commas, bare words, +1 .5 1. 01, unterminated strings, raw control characters, comments, BOM, form feed, trailing garbage, NaN/Infinity, mismatched brackets, byte-level edits) and (c) JSON documents whose strings and property names are rendered HCL templates over a generated scope; acceptance by json.ParseExpression / json.Parse, literal-mode values and expression-mode values are compared with the models; " +
 			"non-trivial = the text has >= 3 JSON tokens and (for mutants) differs from its seed; distinct by text hash",
 		Assumptions: []string{"encoding/json is used only to cross-check the recogniser and to tokenise valid texts", "math/big decimal parsing at 512 bits defines 'full decimal precision' (the precision of the HCL information model as implemented by cty)", "hclsyntax.ParseTemplate defines what a template denotes (C01 monitors it)"},
 		Quick:       Plan{Batches: 16, PerBatch: 1500, MinNonTrivial: 9000},
